@@ -42,9 +42,9 @@ def main():
             out = a[i + 1]
     names = sorted(p.name for p in (ROOT / "seeded").iterdir() if (p / "patch.diff").is_file())
     if rnd == "1":
-        names = [n for n in names if "-r2-" not in n]
-    elif rnd == "2":
-        names = [n for n in names if "-r2-" in n]
+        names = [n for n in names if "-r" not in n]
+    elif rnd in ("2", "3"):
+        names = [n for n in names if f"-r{rnd}-" in n]
     res = {}
     with cf.ThreadPoolExecutor(jobs) as ex:
         for name, pid, rc, line in ex.map(one, names):
